@@ -565,6 +565,7 @@ func registerStubs(e *Engine) {
 
 	// ---- os / time / context / misc environment ----
 	e.reg("os.Getenv", func(fr *frame, args []value) value { return "" })
+	e.reg("runtime/debug.Stack", func(fr *frame, args []value) value { return []value(nil) })
 	e.reg("os.LookupEnv", func(fr *frame, args []value) value { return tuple{"", false} })
 	registerConcStubs(e)
 	e.reg("(time.Duration).String", func(fr *frame, args []value) value { return "0s" })
